@@ -82,11 +82,11 @@ where
     /// It does not clear the cache
     pub fn commit(&mut self) -> Result<(), Box<dyn Error>> {
         for (key, value) in self.cache.iter() {
-#[cfg(brc20_prog_verif)]
+            #[cfg(brc20_prog_verif)]
             crate::verif::failpoint("block/put");
             self.db.put(&key.encode_vec(), &value.encode_vec())?;
         }
-#[cfg(brc20_prog_verif)]
+        #[cfg(brc20_prog_verif)]
         crate::verif::failpoint("block/flush");
         self.db.flush()?;
         Ok(())
@@ -130,7 +130,7 @@ where
         let last_block = self.last_key()?;
         if let Some(end) = last_block {
             while end >= current {
-#[cfg(brc20_prog_verif)]
+                #[cfg(brc20_prog_verif)]
                 crate::verif::failpoint("block/delete");
                 self.db.delete(&U64ED::from(current).encode_vec())?;
                 self.cache.remove(&current);
